@@ -63,8 +63,17 @@ SHAPES = {
     "Tuple[Tuple[a,...],b]": lambda S, a, b: typing.Tuple[typing.Tuple[a, ...], b],
     "FrozenSet[Tuple[a,b]]": lambda S, a, b: typing.FrozenSet[typing.Tuple[a, b]],
     "G[Tuple[a],b]": lambda S, a, b: S["G"][typing.Tuple[a], b],
+    "Tuple[a,b,a]": lambda S, a, b: typing.Tuple[a, b, a],
+    "Tuple[Tuple[a,b],...]": lambda S, a, b: typing.Tuple[typing.Tuple[a, b], ...],
+    "FrozenSet[Union[a,b]]": lambda S, a, b: typing.FrozenSet[typing.Union[a, b]],
+    "Union[Tuple[a],FrozenSet[b]]": lambda S, a, b: typing.Union[typing.Tuple[a], typing.FrozenSet[b]],
+    "G[H[a,b],a]": lambda S, a, b: S["G"][S["H"][a, b], a],
+    "H[a,Tuple[b,...]]": lambda S, a, b: S["H"][a, typing.Tuple[b, ...]],
+    "Tuple[Any,a]": lambda S, a, b: typing.Tuple[typing.Any, a],
+    "H": lambda S, a, b: S["H"],
 }
-QUICK_SHAPES = ["a", "Tuple[a,b]", "Tuple[a,...]", "Tuple[a]", "Tuple", "Union[a,b]", "FrozenSet[a]", "FrozenSet", "Any", "G[a,b]", "H[a,b]", "G"]
+QUICK_SHAPES = ["a", "Tuple[a,b]", "Tuple[a,...]", "Tuple[a]", "Tuple", "Union[a,b]", "FrozenSet[a]", "FrozenSet", "Any", "G[a,b]", "H[a,b]", "G",
+                "Tuple[Any,a]", "Union[Tuple[a],FrozenSet[b]]", "Tuple[a,b,a]"]
 
 
 def formula(S, sub, sup):
@@ -124,7 +133,7 @@ def ref_sub(S, sub, sup):
         if not a_p:
             return T
         if not a_s:
-            return T if a_p[0] is typing.Any else F
+            a_s = (typing.Any, Ellipsis)      # the bare Tuple is Tuple[Any, ...]
         if a_p[-1] is Ellipsis:
             if a_s[-1] is Ellipsis:
                 return ref_sub(S, a_s[0], a_p[0])
@@ -465,7 +474,7 @@ def main():
     if chk.tier == "quick":
         import random
         random.Random(chk.seed).shuffle(trip)
-        trip = trip[:500]
+        trip = trip[:900]
     insts += [("trans",) + t for t in trip]
     insts += [("dispatch", w) for w in ("eager_base", "normalize_base", "lazy_base", "sequential_base", "moment_matching_base", "unfold_base", "optimize_base")]
     insts += [("history",)]
